@@ -37,6 +37,14 @@ class FilteredAlternation(AnalysisError):
         self.node = node
 
 
+class RewrittenGlob(AnalysisError):
+    """The glob is transformed before it reaches the translator."""
+    def __init__(self, expr, node):
+        super().__init__(f"the glob is rewritten before translation ({expr})")
+        self.expr = expr
+        self.node = node
+
+
 class Matcher:
     """How AnnotationsItem turns its globs into the compiled pattern, extracted from the source:
     the expression passed to re.compile is kept as a template over `SEP.join(translate(p) for p in paths)`
@@ -105,6 +113,10 @@ class Matcher:
             if g.ifs:
                 raise FilteredAlternation([ast.unparse(c) for c in g.ifs], e)
             elt = gen.elt
+            if isinstance(elt, ast.Call) and isinstance(elt.func, ast.Name) and len(elt.args) == 1 \
+                    and ast.unparse(elt.args[0]) != ast.unparse(g.target) \
+                    and any(isinstance(n, ast.Name) and n.id == ast.unparse(g.target) for n in ast.walk(elt.args[0])):
+                raise RewrittenGlob(ast.unparse(elt.args[0]), elt)
             if not (isinstance(elt, ast.Call) and isinstance(elt.func, ast.Name) and len(elt.args) == 1
                     and ast.unparse(elt.args[0]) == ast.unparse(g.target)):
                 raise AnalysisError("alternation element is not translator(path)")
@@ -495,6 +507,13 @@ def run(ck: Check, repo: Repo) -> None:
     ck.trust("CPython ast", "re._parser", "sa/transducer.py", "sa/relang.py")
     try:
         tr, qual, fn = rule_model(ck, repo)
+    except RewrittenGlob as err:
+        r = next((x for x in ck.rules if x.rid == "R1"), None) or ck.rule("R1", "compiled pattern = anchored alternation of every translated glob")
+        r.violation(f"{GL}.AnnotationsItem.__attrs_post_init__", f"the glob text is rewritten before it is translated ({err.expr})",
+                    "every character of a glob other than `*` and `\\` matches only itself: a normalisation of the glob TEXT (path"
+                    " normalisation drops a trailing `/`, a leading `./`, `//`; case folding; stripping) changes the language - the"
+                    " glob then matches paths it does not denote and misses paths it does", repo.loc(err.node))
+        return
     except FilteredAlternation as err:
         r = next((x for x in ck.rules if x.rid == "R1"), None) or ck.rule("R1", "compiled pattern = anchored alternation of every translated glob")
         r.violation(f"{GL}.AnnotationsItem.__attrs_post_init__", f"globs are filtered out of the alternation ({'; '.join(err.conds)})",
